@@ -80,6 +80,13 @@ limitations under the License.
                            #name": "
 #endif
 
+#ifdef PHOTON_VERIF
+extern "C" {
+void (*photon_verif_sp)(int kind, const void* addr) = nullptr;
+uint64_t (*photon_verif_clock)() = nullptr;
+}
+#endif
+
 namespace photon
 {
     inline uint64_t min(uint64_t a, uint64_t b) { return (a<b) ? a : b; }
@@ -500,6 +507,7 @@ namespace photon
 
     public:
         void foreground_lock() {
+            PHOTON_VERIF_SP(PHOTON_VERIF_SP_ATOMIC, this);
             // lock
             foreground_locked.store(true, std::memory_order_release);
 
@@ -507,6 +515,7 @@ namespace photon
             wait_while(background_locked);
         }
         bool background_try_lock() {
+            PHOTON_VERIF_SP(PHOTON_VERIF_SP_ATOMIC, this);
             while(true) {
                 // wait if (unlikely) foreground locked
                 wait_while(foreground_locked);
@@ -1173,6 +1182,9 @@ R"(
     static std::atomic<pthread_t> ts_updater(0);
     static inline uint64_t update_now()
     {
+#ifdef PHOTON_VERIF
+        if (photon_verif_clock) { auto t = photon_verif_clock(); now = t; return t; }
+#endif
 #if defined(__x86_64__) && defined(__linux__) && defined(ENABLE_MIMIC_VDSO)
         if (likely(__mimic_vdso_time_x86))
             return photon::now = __mimic_vdso_time_x86.get_now();
@@ -1211,6 +1223,9 @@ R"(
     }
     static uint32_t last_tsc = 0;
     static inline bool if_update_now(bool accurate = false) {
+#ifdef PHOTON_VERIF
+        if (photon_verif_clock) { update_now(); return true; }
+#endif
 #if defined(__x86_64__) && defined(__linux__) && defined(ENABLE_MIMIC_VDSO)
         if (likely(__mimic_vdso_time_x86)) {
             return photon::now = __mimic_vdso_time_x86.get_now(accurate);
@@ -1477,6 +1492,7 @@ insert_list:
     {
         if (unlikely(!th))
             LOG_ERROR_RETURN(EINVAL, , "invalid parameter");
+        PHOTON_VERIF_SP(PHOTON_VERIF_SP_ATOMIC, th);
         auto state = th->state;
         if (unlikely(state != states::SLEEPING)) {
         out: // may have thread_yield()-ed
@@ -1634,8 +1650,10 @@ insert_list:
     }
 
     int ticket_spinlock::lock() {
+        PHOTON_VERIF_SP(PHOTON_VERIF_SP_LOCK, this);
         const auto ticket = next.fetch_add(1, std::memory_order_relaxed);
         while (serv.load(std::memory_order_acquire) != ticket) {
+            PHOTON_VERIF_SP(PHOTON_VERIF_SP_BUSYWAIT, this);
 #ifdef __aarch64__
             asm volatile("isb" : : : "memory");
 #else
@@ -1648,6 +1666,7 @@ insert_list:
     void ticket_spinlock::unlock() {
         const auto successor = serv.load(std::memory_order_relaxed) + 1;
         serv.store(successor, std::memory_order_release);
+        PHOTON_VERIF_SP(PHOTON_VERIF_SP_UNLOCK, this);
     }
 
     struct qspinlock::holder {
@@ -1656,6 +1675,7 @@ insert_list:
     };
     static thread_local qspinlock::holder qslholder;
     int qspinlock::try_lock() {
+        PHOTON_VERIF_SP(PHOTON_VERIF_SP_TRYLOCK, this);
         holder* expected = nullptr;
         bool ok = _owner_tail.compare_exchange_strong(expected,
                         &qslholder, std::memory_order_acq_rel);
@@ -1665,10 +1685,12 @@ insert_list:
         // forbid gcc to silly update h
         auto h = &qslholder; asm volatile("": "+r"(h));
         assert(h->next == nullptr);
+        PHOTON_VERIF_SP(PHOTON_VERIF_SP_LOCK, this);
         auto old_tail = _owner_tail.exchange(h, std::memory_order_acq_rel);
         if (!old_tail) return 0;
 
         h->got_lock.store(false, std::memory_order_relaxed);
+        PHOTON_VERIF_SP(PHOTON_VERIF_SP_ATOMIC, this);
         assert(old_tail->next.load(std::memory_order_acquire) == nullptr);
         old_tail->next.store(h, std::memory_order_release);
         do { spin_wait(); }
@@ -1679,6 +1701,7 @@ insert_list:
         // forbid gcc to silly update h
         auto h = &qslholder; asm volatile("": "+r"(h));
         while(true) {
+            PHOTON_VERIF_SP(PHOTON_VERIF_SP_ATOMIC, this);
             auto next = h->next.load(std::memory_order_acquire);
             if (next) { // resume the next waiter, if there is one
                 h->next.store(nullptr, std::memory_order_release);
@@ -1792,6 +1815,7 @@ insert_list:
     }
     int mutex::try_lock()
     {
+        PHOTON_VERIF_SP(PHOTON_VERIF_SP_ATOMIC, this);
         thread* ptr = nullptr;
         bool ret = owner.compare_exchange_strong(ptr, CURRENT,
             std::memory_order_acq_rel, std::memory_order_relaxed);
@@ -1934,6 +1958,7 @@ insert_list:
     }
     inline bool semaphore::try_subtract(uint64_t count) {
         while(true) {
+            PHOTON_VERIF_SP(PHOTON_VERIF_SP_ATOMIC, this);
             auto mc = m_count.load();
             if (mc < count)
                 return false;
